@@ -243,6 +243,11 @@ def rule_mem(ctx: Ctx) -> List[Ob]:
                 obs.append(ob("MEM", "right append is bounded by maxcor+1 points, dropping from the left", f, c, okb, factb,
                               construct=f"bound after {short(c)}"))
     need(n_ins >= 8, f"MEM: only {n_ins} insertion sites found")
+    # the accepted pair must be seen entering both histories in update_X_and_G (a mutation the rule cannot see -- through
+    # an alias of the container, say -- would make every clause about it pass vacuously)
+    upd_ = ctx.repo.func("bfgsmats.update_X_and_G")
+    seen_ = {(o.construct.split(".")[0]) for o in obs if o.func == upd_.qual and o.inst.startswith("insertion is a seed")}
+    need(len(seen_) >= 2, f"MEM: update_X_and_G is not seen inserting the accepted pair into both histories (recognised insertions into: {sorted(seen_)})")
     # (b) reject-no-touch
     upd = ctx.repo.func("bfgsmats.update_X_and_G")
     cfg = ctx.cfg(upd)
